@@ -50,6 +50,7 @@ extern "C" int harness()
             ev.k   = nondet_u64();
             __vf_assume(ev.k < NKEYS);
             ev.v = nondet_u64();
+            __vf_assume(ev.v != 0xDEADBEEFDEADBEEFull); // the poison of moved-from instances is never written by the caller
             ev.a = nondet_u8();
             __vf_assume(ev.a >= 1 && ev.a <= 3);
             ev.pk  = nondet_bool();
@@ -59,6 +60,7 @@ extern "C" int harness()
             Res r;
             exec_call(c, ev, r);
             VF_P(8, 1, g_live >= 0 && g_bad == 0); // never more destructions than constructions, never a dead instance touched
+            VF_P(8, 4, !(r.ok && (ev.op == OP_FIND || ev.op == OP_FIND_PLAIN)) || r.val != 0xDEADBEEFDEADBEEFull); // no moved-from value is served
         }
         VF_REACH(1);
     }
